@@ -201,6 +201,8 @@ def run(ctx):
 
 
 # ----------------------------------------------------------------------------------------------------------------------
+    check_per_call_options_honoured(ctx)
+
 
 def public_option_methods(ctx):
     out = []
@@ -346,3 +348,39 @@ def check_registries(ctx):
     else:
         ctx.note('reconcile(): no literal tuple of rejected option names found; only the fixed option block was checked')
         ctx.check('R20.7', kws <= set(G), 'fst', 'FST.reconcile', f'fixed options {sorted(kws)}', 'unknown option in reconcile block', rc.lineno)
+
+
+def check_per_call_options_honoured(ctx):
+    """R20.9 — where a per-call `options` mapping is in scope, an option is never read from the global default alone:
+    `get_option('x')` without the mapping is accepted only as the fallback of the idiom
+    `if (v := <opts>.get('x', <sentinel>)) is <sentinel>: v = get_option('x')`."""
+    ctx.rule('R20.9', 'inside a function that received per-call options, get_option(name) is given that mapping (or is the fallback of an '
+                      'explicit `<options>.get(name, sentinel)` lookup of the same name)', 50)
+    n = 0
+    for fi in ctx.repo.all_funcs():
+        if isinstance(fi.node, ast.Lambda):
+            continue
+        a = fi.node.args
+        names = [p.arg for p in a.posonlyargs + a.args + a.kwonlyargs] + ([a.kwarg.arg] if a.kwarg else [])
+        opt_names = [p for p in names if p == 'options' or p.endswith('_options')]
+        for c in walk_no_nested(fi.node):
+            if not (isinstance(c, ast.Call) and call_name(c) == 'get_option' and c.args and isinstance(c.args[0], ast.Constant)):
+                continue
+            if not opt_names:
+                continue
+            n += 1
+            passed = len(c.args) >= 2 or any(k.arg == 'options' for k in c.keywords)
+            if passed:
+                ctx.ok('R20.9', f'{fi.module}|{fi.qualname}|{norm(c, 60)}')
+                continue
+            name = c.args[0].value
+            fallback = any(isinstance(x, ast.Call) and isinstance(x.func, ast.Attribute) and x.func.attr == 'get' and x.args and
+                           isinstance(x.args[0], ast.Constant) and x.args[0].value == name and len(x.args) == 2 and
+                           (norm(x.func.value) == 'options' or norm(x.func.value).endswith('_options')) and x.lineno <= c.lineno
+                           for x in walk_no_nested(fi.node))
+            ctx.check('R20.9', fallback, fi.module, fi.qualname, norm(c, 60),
+                      f'option {name!r} is read from the global / block default although the caller passed per-call options: a value given for this '
+                      f'call only is ignored here (and the operation behaves as if the global setting had been changed)', c.lineno,
+                      sample={'function': fi.key, 'call': norm(c, 60)})
+    if n < 50:
+        raise AnalysisError(f'only {n} get_option() reads in functions with an options mapping found')
